@@ -132,9 +132,15 @@ pub enum Value<'a> {
 
 impl<'a> Value<'a> {
     /// Clones the value, placing any array backing stores in the given arena.
-    /// Strings use zero-cost clone. Numbers/bools/null are trivial copies.
+    /// Borrowed strings (source literals) are shared. Owned strings live in storage
+    /// that is recycled when the owning variable or element is overwritten or goes
+    /// out of scope, so a reader gets its own copy instead of an alias into that
+    /// storage. Numbers/bools/null are trivial copies.
     fn clone_into(&self, arena: &'a Arena) -> Self {
         match self {
+            Value::Str(ArenaCow::Owned(s)) => {
+                Value::Str(ArenaCow::Owned(ArenaString::from_str(arena, s.as_str())))
+            }
             Value::Str(cow) => Value::Str(cow.clone()),
             Value::Number(n) => Value::Number(*n),
             Value::Bool(b) => Value::Bool(*b),
